@@ -81,23 +81,32 @@ Proof.
   - eauto.
 Qed.
 
-(* non-vacuity: a concrete configuration, stream and clocks *)
+(* non-vacuity: a concrete SP configuration, random stream, registry and clocks
+   satisfy the hypotheses, for any IdP configuration with that SSO URL and a
+   90 s MaxIssueDelay (stated over cfg so that it does not depend on the other
+   fields of IdPModel.idpcfg) *)
 Example idp_accepts_example :
   let c := {| sp_entity_id := ""; sp_metadata_url := "https://sp.example.com/saml/metadata";
               sp_acs_url := "https://sp.example.com/saml/acs"; sp_nameid_format := "";
               sp_force_authn := None; sp_authn_ctx := None; sp_idp_entity := "https://idp.example.com/metadata" |} in
-  let cfg := {| IdPModel.sso_url := "https://idp.example.com/sso"; IdPModel.idp_entity := "https://idp.example.com/metadata";
-                IdPModel.max_issue_delay := 90000000000; IdPModel.max_clock_skew := 180000000000;
-                IdPModel.sig_method := ""; IdPModel.idp_key := 1; IdPModel.idp_signer := None |} in
   let md := IdPModel.sp_metadata (idp_view c (Some 7) true false 1 false) "MIIB" in
-  match make_authn_request c "0123456789abcdefghijREST" 1715000000123456789 "https://idp.example.com/sso" HTTP_POST with
-  | Ok (r, rest) =>
-      rest = "REST" /\
-      match IdPModel.validate cfg (IdPModel.reg_of_list [("https://sp.example.com/saml/metadata", IdPModel.Found md)])
-                              (1715000000123456789 + 89000000000) (to_authnreq r) with
-      | Ok rt => IdPModel.ep_location (IdPModel.rt_ep rt) = "https://sp.example.com/saml/acs"
-      | _ => False
-      end
-  | _ => False
-  end.
-Proof. vm_compute. split; reflexivity. Qed.
+  let reg := IdPModel.reg_of_list [("https://sp.example.com/saml/metadata", IdPModel.Found md)] in
+  forall cfg, IdPModel.sso_url cfg = "https://idp.example.com/sso" -> IdPModel.max_issue_delay cfg = 90000000000 ->
+  exists r rt,
+    make_authn_request c "0123456789abcdefghijREST" 1715000000123456789 "https://idp.example.com/sso" HTTP_POST = Ok (r, "REST")
+    /\ aq_id r = "id-303132333435363738396162636465666768696a"
+    /\ IdPModel.validate cfg reg (1715000000123456789 + 89000000000) (to_authnreq r) = Ok rt
+    /\ IdPModel.ep_location (IdPModel.rt_ep rt) = "https://sp.example.com/saml/acs".
+Proof.
+  intros c md reg cfg Hs Hd.
+  destruct (make_authn_request c "0123456789abcdefghijREST" 1715000000123456789 "https://idp.example.com/sso" HTTP_POST)
+    as [[r rest]| |] eqn:E; try (vm_compute in E; discriminate).
+  assert (rest = "REST" /\ aq_id r = "id-303132333435363738396162636465666768696a") as [-> Hid]
+    by (vm_compute in E; inversion E; split; reflexivity).
+  destruct (idp_accepts_sp_request c _ _ _ _ r "REST" cfg reg (1715000000123456789 + 89000000000)
+              (Some 7) true false 1 false "MIIB" E) as (rt & A & B & _).
+  - intros _. now rewrite Hs.
+  - reflexivity.
+  - rewrite Hd. vm_compute. discriminate.
+  - exists r, rt. auto.
+Qed.
